@@ -14,6 +14,7 @@ import NemoVerif.Lemmas.LifetimeV
 import NemoVerif.Lemmas.LifetimeVEq
 import NemoVerif.Lemmas.LifetimeVInv
 import NemoVerif.Lemmas.LifetimeCoreVM9
+import NemoVerif.Lemmas.LifetimeCoreVM9b
 namespace NemoVerif.C06
 open NemoVerif.Lifetime
 
